@@ -23,10 +23,14 @@ def run(ctx):
     done_low = sum(1 for s in scns if s["ver"] < 772 and res[s["sc"]]["cok"])
     canary_abort = sum(1 for s in scns if s["canary"] == 2 and s["ver"] < 772 and not res[s["sc"]]["cok"])
     legacy_done = sum(1 for s in scns if s["legacy_only"] and res[s["sc"]]["cok"])
+    resumed_done = sum(1 for s in scns if s.get("resume") and res[s["sc"]]["cok"] and res[s["sc"]]["cs"]["resumed"])
+    resumed_canary = sum(1 for s in scns if s.get("resume") and s["canary"] == 2 and not res[s["sc"]]["cok"])
+    if resumed_done == 0 or resumed_canary == 0:
+        raise vlib.Machinery("vacuous: resumed completions=%d, sentinel aborts on resumable sessions=%d" % (resumed_done, resumed_canary))
     if done_low == 0 or canary_abort == 0 or legacy_done == 0:
         raise vlib.Machinery("vacuous: completed-below-1.3=%d sentinel-aborts=%d legacy-server-completions=%d" % (done_low, canary_abort, legacy_done))
     cov = {"evaluations": len(scns), "distinct_nontrivial": len(scns),
            "rule": "every predefined parrot x server version 1.0..1.3 x {server honours supported_versions, server negotiates from legacy_version only (hook H3)} x downgrade sentinel {default, suppressed, forced (hook H4)}; the advertised set is parsed from the wire hello by TLC; distinct = scenarios",
            "samples": [nc.scn_brief(s) for s in scns[:3]], "table_pairs_accepted_but_not_advertised": unadv,
-           "completed_below_tls13": done_low, "aborted_on_forced_sentinel": canary_abort, "completed_with_legacy_server": legacy_done, "exhaustive": True}
+           "completed_below_tls13": done_low, "aborted_on_forced_sentinel": canary_abort, "completed_with_legacy_server": legacy_done, "completed_by_resumption": resumed_done, "sentinel_aborts_with_resumable_session": resumed_canary, "exhaustive": True}
     return "model_checking", cov, ["server versions limited to what the in-tree server implements (TLS 1.0-1.3)"]
